@@ -3,6 +3,9 @@ package main
 import (
 	"encoding/json"
 	"fmt"
+	"os"
+	"os/exec"
+	"path/filepath"
 	"sort"
 	"strings"
 
@@ -19,6 +22,8 @@ type txCase struct {
 	Kind    string          `json:"kind"` // message | profileName | validationName | in | containsAll | containsSome
 	Text    string          `json:"text"`
 	Present map[string]bool `json:"present"` // which placeholder properties the focus node has
+	CLI     string          `json:"cli,omitempty"` // path of the acv binary: the same texts also go through `acv validate`
+	Scratch string          `json:"scratch,omitempty"`
 }
 
 type txObs struct {
@@ -30,6 +35,39 @@ type txObs struct {
 	Messages    []string `json:"messages"` // resultMessage of the results about node n1
 	Reported    []string `json:"reported"` // focus nodes reported
 	Profile     string   `json:"profile,omitempty"`
+	// the same three projections of the report `acv validate PROFILE DATA` prints
+	CLIRan         bool     `json:"cliRan,omitempty"`
+	CLIErr         string   `json:"cliErr,omitempty"`
+	CLIProfileName string   `json:"cliProfileName,omitempty"`
+	CLINames       []string `json:"cliNames,omitempty"`
+	CLIMessages    []string `json:"cliMessages,omitempty"`
+}
+
+// projectTextReport extracts profileName, the sourceShapeNames and the messages about node n1 from a report text
+func projectTextReport(rep string) (pname string, names, messages, reported []string, err error) {
+	var rdoc []map[string]any
+	if e := json.Unmarshal([]byte(rep), &rdoc); e != nil || len(rdoc) == 0 {
+		return "", nil, nil, nil, fmt.Errorf("report is not JSON: %v", e)
+	}
+	enc, _ := rdoc[0]["doc:encodes"].([]any)
+	if len(enc) == 0 {
+		return "", nil, nil, nil, fmt.Errorf("report encodes nothing")
+	}
+	node, _ := enc[0].(map[string]any)
+	pname, _ = node["profileName"].(string)
+	res, _ := node["result"].([]any)
+	names, messages, reported = []string{}, []string{}, []string{}
+	for _, r := range res {
+		rm, _ := r.(map[string]any)
+		focus := stripNS(scalarString(rm["focusNode"]))
+		reported = append(reported, focus)
+		names = append(names, scalarString(rm["sourceShapeName"]))
+		if focus == "n1" {
+			messages = append(messages, scalarString(rm["resultMessage"]))
+		}
+	}
+	sort.Strings(reported)
+	return
 }
 
 func runText(c txCase) (o txObs) {
@@ -105,25 +143,31 @@ func runText(c txCase) (o txObs) {
 		o.Profile = prof
 		return
 	}
-	var rdoc []map[string]any
-	if err := json.Unmarshal([]byte(rep), &rdoc); err != nil {
-		o.Err = "report is not JSON: " + err.Error()
+	var perr error
+	o.ProfileName, o.Names, o.Messages, o.Reported, perr = projectTextReport(rep)
+	if perr != nil {
+		o.Err = perr.Error()
 		return
 	}
-	enc, _ := rdoc[0]["doc:encodes"].([]any)
-	node, _ := enc[0].(map[string]any)
-	o.ProfileName, _ = node["profileName"].(string)
-	res, _ := node["result"].([]any)
-	for _, r := range res {
-		rm, _ := r.(map[string]any)
-		focus := stripNS(scalarString(rm["focusNode"]))
-		o.Reported = append(o.Reported, focus)
-		o.Names = append(o.Names, scalarString(rm["sourceShapeName"]))
-		if focus == "n1" {
-			o.Messages = append(o.Messages, scalarString(rm["resultMessage"]))
+	if c.CLI != "" {
+		o.CLIRan = true
+		pf := filepath.Join(c.Scratch, strings.ReplaceAll(c.ID, "/", "_")+".yaml")
+		df := filepath.Join(c.Scratch, strings.ReplaceAll(c.ID, "/", "_")+".jsonld")
+		os.WriteFile(pf, []byte(prof), 0644)
+		os.WriteFile(df, data, 0644)
+		out, xerr := exec.Command(c.CLI, "validate", pf, df).Output()
+		os.Remove(pf)
+		os.Remove(df)
+		if xerr != nil {
+			o.CLIErr = "acv validate: " + xerr.Error()
+			return
+		}
+		var cerr error
+		o.CLIProfileName, o.CLINames, o.CLIMessages, _, cerr = projectTextReport(string(out))
+		if cerr != nil {
+			o.CLIErr = cerr.Error()
 		}
 	}
-	sort.Strings(o.Reported)
 	return
 }
 
